@@ -63,6 +63,11 @@ PROPS = {
         "trusted_base": ["the walk of tagBlockNode.Execute / Super over the whole interpreter is tied to the model by correspondence; theorems cover the resolution functions (definition lookup, Super indexing, chain shape)"],
         "assumptions": ["chains served from an in-memory loader; every template of each chain is rendered"],
     },
+    "C11": {
+        "suites": [{"name": "c11-trees", "proj": ["loaders", "fetchlog", "class", "output", "driver"]}],
+        "trusted_base": ["the harness loader's Abs (Go's path package) is modelled in Lean (Path.clean/dir/join); LocalFilesystemLoader/SandboxedFilesystemLoader/HttpFilesystemLoader touch the OS and are not modelled", "tools/extract's OS-access listing (selector uses of os/ioutil/fs/http outside template_loader.go)", "on compile errors the model does not keep the Get log of the failed compilation: logs are compared on successful renders"],
+        "assumptions": ["a canary file on the real file system under a name the virtual tree references but no loader serves"],
+    },
     "C12": {
         "suites": [{"name": "c12-scope", "proj": ["reference", "class", "output", "driver"]}],
         "trusted_base": ["the whole-interpreter frame invariant (a construct leaves the frames below its own untouched) is decided by the reference-environment suite; the theorems cover the frame combinator, set, child contexts, key validation and the regenerated effect table"],
